@@ -1,7 +1,7 @@
 SPEC = {
     "id": "C03",
     "level": "proof",
-    "theorem_modules": ["GluonModel.Theorems.C03", "GluonModel.Theorems.SysC03"],
+    "theorem_modules": ["GluonModel.Theorems.C03", "GluonModel.Theorems.C03Proto", "GluonModel.Theorems.SysC03"],
     "correspondences": [
         # the multi-session model (Model/System.lean) Theorems/SysC03.lean is about, on histories whose point is that
         # \Deleted is per mailbox and every other flag per message: the same messages in 2-3 mailboxes, every session
@@ -16,7 +16,14 @@ SPEC = {
         # of them; n chosen by the seed from {499,501,999,1001,1999,2001}; all six in the thorough tier), then random
         # sequences (every fourth with the connector's echoes delivered), then random sequences of the profile `cross`
         # (the same messages in 2-3 mailboxes, every session stays in its own mailbox — no re-SELECT —, mostly STOREs
-        # naming \Deleted from every mailbox, EXPUNGE / UID EXPUNGE / CLOSE by the sessions selected all along).  After
+        # naming \Deleted from every mailbox, EXPUNGE / UID EXPUNGE / CLOSE by the sessions selected all along).
+        # PROTOCOL STATE: sessions open mailboxes with SELECT and EXAMINE (read-only), and commands FAIL in front of the
+        # content commands: SELECT / EXAMINE of a name that does not exist, of a child that does not exist, of the
+        # \Noselect parent `par`, without an argument; COPY / MOVE into a mailbox that does not exist; STORE naming
+        # \Recent; STORE … CLOSE without an open mailbox.  Judge and model keep every session's protocol state
+        # themselves (Spec/MailboxRefProto.lean / Model/SelState.lean): the open mailbox is in the mode of the command
+        # that opened it whatever was refused since; read-only => STORE / EXPUNGE / UID EXPUNGE / MOVE refused and CLOSE
+        # removes nothing; read-write => CLOSE expunges.  After
         # the sequence and at checkpoints a FRESH session reads every mailbox; the run is judged by the REFERENCE model
         # in Lean (judge-c03-content) and compared with the Lean MODEL of the code (c03-model).  EXPUNGE-class steps are
         # judged by the AUTHORITATIVE \Deleted of the mailbox (refExpunge / refUidExpunge), the session's view only
@@ -29,7 +36,9 @@ SPEC = {
             "session's FETCH 1:* (UID FLAGS BODY.PEEK[]) of every mailbox is compared with the Lean reference model run on "
             "the same commands; non-trivial = sequences in which at least one checkpoint was compared and the judge "
             "answered `ok nontrivial`; command kinds, message-set sizes, stale views, same-mailbox COPY/MOVE counts and the "
-            "number of `cross` sequences are in input_distribution['oracle.c03content']; plus the c03-sys histories (one "
+            "number of `cross` sequences, EXAMINE sessions (cmd.EXAMINE, read-only-cmd), refused SELECT / EXAMINE with a mailbox "
+            "open (failed-open-with-mailbox-open) and commands without an open mailbox (unselected-cmd) are in "
+            "input_distribution['oracle.c03content']; plus the c03-sys histories (one "
             "evaluation each; non-trivial = at least one STORE naming \\Deleted on a message that lives in two mailboxes "
             "and at least one message expunged, final content of every mailbox equal to the reference run)",
     "trusted_base": [
@@ -51,6 +60,13 @@ SPEC = {
         "session's expunge marks are the \\Deleted column of ITS mailbox; tied to the real server by the c03-sys "
         "correspondence (cross-mailbox histories over TCP, every answer, every untagged response, every final view "
         "compared) and by C02's sys dialect; judge-c03-sys (Driver/DC03Sys.lean) is the reference run on the history",
+        "reference protocol state GluonModel/Spec/MailboxRefProto.lean (per session the open mailbox and whether it was opened "
+        "with EXAMINE; `permits`: STORE / EXPUNGE / UID EXPUNGE / MOVE only read-write; `effect`: CLOSE expunges only "
+        "read-write; a command answered NO / BAD changes neither the mailboxes nor the protocol state — gluon keeps the "
+        "old mailbox open after a refused SELECT where RFC 3501 6.3.1 closes it: the judge accepts both, never a changed "
+        "mode) and hand-written model GluonModel/Model/SelState.lean of State.Select / State.Examine / State.Selected / "
+        "State.close and the read-only checks of handleStore / handleExpunge / handleUIDExpunge / handleCopy / handleMove / "
+        "handleClose, tied to the server by c03-model on the same histories",
         "wire oracle harness/o_content.go + harness/sys.go: IMAP client, barrier hook (Server.VerifBarrier), resolution "
         "of a message set against the view the session reports (UID SEARCH ALL / UID SEARCH DELETED) in item order with "
         "every message once (C16's theorems about gluon), FETCH literal decoding, removal of the X-Pm-Gluon-Id line, "
@@ -62,8 +78,10 @@ SPEC = {
         "barrier (they carry only \\Seen/\\Flagged: a fixture artefact) except in the echo=flush sequences, which only "
         "use \\Seen, \\Flagged, \\Deleted",
         "message sets arrive resolved (C16) as lists without repetition; the set of mailboxes is fixed during a history "
-        "and the selected mailbox is not the recovery mailbox (answered outOfScope; C20 models it); sessions are "
-        "read-write",
+        "and the selected mailbox is not the recovery mailbox (answered outOfScope; C20 models it); Theorems/C03.lean "
+        "is about read-write sessions, Theorems/C03Proto.lean adds the protocol state (SELECT / EXAMINE / CLOSE, "
+        "refused commands, read-only sessions) on top of it; a failure of newSnapshot / ClearRecentFlagsInMailbox "
+        "inside SELECT (index failure, C07) is not modelled",
         "Mailbox.Append's fallback into the recovery mailbox after a failed AppendRegular is C20's model, not repeated: "
         "the failing first transaction restores the whole model state (the orphan literal in the message store and the "
         "unused UUID are not kept)",
@@ -101,5 +119,11 @@ SPEC = {
                    "System level (Theorems/SysC03.lean): along every trace a snapshot's expunge marks follow its flags; a "
                    "session with nothing pending marks exactly the \\Deleted rows of its own mailbox, so its EXPUNGE is "
                    "the reference EXPUNGE of that mailbox and leaves the other mailboxes of the same messages alone — for "
-                   "flag changes made in any mailbox; tied to the server by the c03-sys histories.",
+                   "flag changes made in any mailbox; tied to the server by the c03-sys histories.  "
+                   "Protocol state (Theorems/C03Proto.lean): a SELECT / EXAMINE that is not answered OK leaves the open "
+                   "mailbox open and state.ro as it was (failed_open_keeps_protocol_state); in a read-only session STORE / "
+                   "EXPUNGE / COPY / MOVE are refused and change nothing, CLOSE removes nothing (read_only_refuses, "
+                   "read_only_close_removes_nothing); every command answered OK is one the reference permits in the "
+                   "issuing session's protocol state and has the reference's effect, every other command changes nothing, "
+                   "by induction over arbitrary histories of any number of sessions (C03_sessions_partial).",
 }
